@@ -25,6 +25,7 @@ struct Tally {
     data_words: u64,
     data_via_typing: u64,
     singles: u64,
+    flipped: u64,
 }
 
 fn flush(t: &Tally, out: &mut Out) {
@@ -32,6 +33,7 @@ fn flush(t: &Tally, out: &mut Out) {
     out.count("ansi.candidates_encoded_and_compared", t.ansi_candidates);
     out.count("ansi.lists", t.ansi_lists);
     out.count("ansi.single_strings", t.singles);
+    out.count("ansi.texts_retyped_after_switching_ansi_on_in_a_live_context", t.flipped);
     out.count("ansi.texts_that_have_emoji_outside_ansi", t.emoji_capable_texts);
     out.count("ansi.texts_with_english_option_on", t.english_capable_texts);
     out.count("non_ansi.candidates_preedit_identity", t.nonansi_candidates);
@@ -212,7 +214,7 @@ impl Prop for C16 {
         "C16"
     }
     fn rule(&self) -> String {
-        "phonetic: the C07 text sources (strided) typed in 5 ANSI contexts (suggestions on/off x English on/off x smart quotes) and 3 non-ANSI ones; \
+        "phonetic: every emoji-capable text typed with ANSI off, then again after update_engine switched ANSI on in the same context; the C07 text sources (strided) typed in 5 ANSI contexts (suggestions on/off x English on/off x smart quotes) and 3 non-ANSI ones; \
          fixed: prefixes of dictionary words (every 60th quick, every 6th thorough), Bengali emoji names, emoticon key sequences and random key histories over both planes of Probhat and the synthetic layout in 3 ANSI and 3 non-ANSI contexts; \
          data-exhaustive (through Suggestion::new / new_lonely with ANSI on): every word of dictionary.json, every suffix value, every transliterated auto-correct value, and every suffix-joined form of the auto-correct values (strided in quick), \
          plus every 200th (quick) / 20th (thorough) dictionary word typed in fixed mode. Every candidate's pre-edit text is compared with poriborton's encoder called directly and scanned for U+0980-U+09FF. \
@@ -231,7 +233,7 @@ impl Prop for C16 {
     fn minima(&self, _tier: Tier) -> Vec<(&'static str, u64)> {
         vec![
             ("ansi.candidates_encoded_and_compared", 100_000), ("ansi.lists", 5_000), ("ansi.texts_that_have_emoji_outside_ansi", 300),
-            ("ansi.texts_with_english_option_on", 2_000), ("non_ansi.candidates_preedit_identity", 10_000), ("data_exhaustive.strings_through_constructor", 150_000),
+            ("ansi.texts_with_english_option_on", 2_000), ("ansi.texts_retyped_after_switching_ansi_on_in_a_live_context", 300), ("non_ansi.candidates_preedit_identity", 10_000), ("data_exhaustive.strings_through_constructor", 150_000),
         ]
     }
     fn classify(&self, classifier: &str, _params: &Value, v: &Violation) -> bool {
@@ -274,6 +276,25 @@ impl Prop for C16 {
             }
         }
         drop(ps);
+        // ---- the ANSI option switched on under a live context that has already shown the same text with emoji
+        {
+            let off = CfgSpec::new(Lay::Phonetic, O_PSUGG | O_ENG);
+            let on = off.with(O_ANSI);
+            if let Ok(mut flip) = Sess::new(off, &root) {
+                for (i, tx) in texts.iter().enumerate() {
+                    let (_, word, _) = crate::oracle::phon::split(tx, false);
+                    if !env.mine(i) || !(o.emoticons.contains_key(tx.as_str()) || o.emojis.contains_key(word.as_str())) {
+                        continue;
+                    }
+                    if flip.update(off).is_err() || type_finish(&flip, tx).is_err() || flip.update(on).is_err() {
+                        break;
+                    }
+                    t.flipped += 1;
+                    out.begin_case(|| json!({"method": "phonetic", "cfg": on.to_json(), "text": tx, "typed_before_with_ansi_off_in_the_same_context": true}));
+                    judge_phonetic(&mut o, &flip, tx, out, &mut t);
+                }
+            }
+        }
         // ---- fixed
         for lay in [Lay::Probhat, Lay::Verif] {
             let Ok(lo) = LayoutOracle::load(lay) else { continue };
